@@ -231,6 +231,7 @@ func C01(r *core.Run) {
 	rule015(r)
 	rule016(r, "C01")
 	rule017(r)
+	rule0110(r)
 	ruleL8(r)
 	rule019(r)
 	rule153(r)
@@ -1124,4 +1125,61 @@ func unwrapParamMap(v ssa.Value, f *ssa.Function) bool {
 		}
 	}
 	return false
+}
+
+// rule0110 — an acknowledged upload was written, whatever was stored before.
+func rule0110(r *core.Run) {
+	r.Rule("R01.10", "in the memory and bolt backends every successful return of PutObject (and of its transaction closure) is preceded on all paths by the write of the new record (bucket.put / (*bolt.Bucket).Put): no fast path acknowledges an upload without storing it (e.g. because the stored object looks identical — its metadata may differ)")
+	type w struct{ fn, write string }
+	n := 0
+	for _, x := range []w{
+		{"s3mem.(*Backend).PutObject", "s3mem.(*bucket).put"},
+		{"s3bolt.(*Backend).PutObject", "(*go.etcd.io/bbolt.Bucket).Put"},
+	} {
+		top := mustFunc(r, x.fn)
+		if top == nil {
+			continue
+		}
+		found := false
+		for _, f := range core.Closures(top) {
+			writes := r.P.CallsIn(f, false, core.NameIs(x.write))
+			if len(writes) == 0 {
+				continue
+			}
+			found = true
+			n++
+			var ws []*ssa.Call
+			for _, wc := range writes {
+				if c, ok := wc.(*ssa.Call); ok {
+					ws = append(ws, c)
+				}
+			}
+			// a nil-error return needs the write before it on all paths; `return b.Put(…)` succeeds exactly when the write did
+			okW := true
+			for ret, ev := range returnedErrors(f) {
+				if !definitelyNil(r, core.BlockLocalLoad(ev)) {
+					continue
+				}
+				if core.ReachableFromEntryAvoiding(ret, func(in ssa.Instruction) bool {
+					for _, wc := range writes {
+						if in == wc.(ssa.Instruction) {
+							return true
+						}
+					}
+					return false
+				}) {
+					okW = false
+				}
+			}
+			_ = ws
+			r.Check(okW, "R01.10", key(fname(r, f), "success only after the write"), r.P.Pos(f.Pos()), "the record is written on every successful path",
+				"PutObject can acknowledge an upload without writing it (a path to success bypasses "+x.write+"): what a later GET returns — body or metadata — is not what this upload sent")
+		}
+		if !found {
+			r.Violated("R01.10", key(x.fn, "write present"), r.P.Pos(top.Pos()), "PutObject no longer writes through "+x.write)
+		}
+	}
+	if n < 2 {
+		r.Unresolved("R01.10: %d success returns with a preceding write found (expected at least 2)", n)
+	}
 }
